@@ -100,6 +100,9 @@ pub fn encode_value(doc: &Doc, ty: &Ty, v: &J, unc: &mut bool) -> R<[u8; 32]> {
         }
         Ty::Uint(n) | Ty::Int(n) => {
             let signed = matches!(ty, Ty::Int(_));
+            // EIP-712 integers are JSON integers or strings; a JSON number in float notation (127.0, 1.27e2) is a spelling no
+            // property names for typed data: it may be refused, but if it is read it is read at its exact value
+            if let J::Num(l) = v { if l.contains(['.', 'e', 'E']) { *unc = true; } }
             match classify_ranged(v, *n, signed) {
                 Class::Accept(i) => i.to_word().unwrap(),
                 Class::Unc(i) => { *unc = true; i.to_word().unwrap() }
